@@ -151,7 +151,10 @@ class Timeline(object):
         self.options = {k: v for k, v in DEFAULT_OPTIONS.items()}
         if options:
             self.options.update(options)
+        if not options or "scale" not in options:
+            self.options["scale"] = TimeScale()
         self.direction = self.options["direction"]
+        self.options["labella"] = dict(self.options["labella"])
         self.options["labella"]["direction"] = self.direction
         # parse items
         self.items = self.parse_items(dicts, output_mode=output_mode)
